@@ -1,4 +1,4 @@
-import AbraProofs.Lemmas.LexSteps
+import AbraProofs.Lemmas.LexLocal
 import AbraProofs.Properties.C31
 /-!
 # C29 — comments and optional separators never change a program
@@ -144,18 +144,108 @@ theorem kindsFrom_of_Lexes {s Y : List Char} {ks : List TokenKind} (h : Lexes s 
 /-- **Comment insertion at a token boundary (partial).** If the lexer splits the file after the
     prefix `s₁` — in front of the comment as well as in front of a space — and emits the same kinds
     for `s₁` both times, then inserting the block comment changes no token kind of the file.
-    -- OPEN: the hypothesis that `s₁` is lexed alike in front of `/*` and in front of a space follows
-    --   from a locality property of `lexOne` (a step that ends inside `s₁` looks at most one
-    --   character past its end, and `/` differs from ` ` only after a `/`); the case analysis over
-    --   all token classes (notably triple-quoted strings) is not done.  The correspondence checks
-    --   exactly this on real programs (comment inserted at every kind of boundary). -/
+    `C29_block_comment_insertion` / `C29_line_comment_insertion` below discharge the hypothesis (by
+    the locality of `lexOne`, `Abra.Lex.lexOne_local`) when the comment is written behind a space and
+    no triple-quoted literal precedes it.
+    -- OPEN: (1) prefixes containing a triple-quoted literal (locality of `collectLines` not proved),
+    --   (2) a comment written directly behind a token without a space (`/` differs from ` ` as
+    --   look-ahead only after a `/` token).  Both are exercised by the correspondence. -/
 theorem C29_comment_insertion_partial (s₁ s₂ c : List Char) (ks : List TokenKind)
     (h : noClose c = true)
     (h1 : Lexes s₁ ('/' :: '*' :: (c ++ '*' :: '/' :: s₂)) ks) (h2 : Lexes s₁ (' ' :: s₂) ks) :
     kindsFrom (s₁ ++ '/' :: '*' :: (c ++ '*' :: '/' :: s₂)) = kindsFrom (s₁ ++ ' ' :: s₂) := by
   rw [kindsFrom_of_Lexes h1, kindsFrom_of_Lexes h2, C29_block_comment_transparent c s₂ h]
 
+/-- `LexesNT s Y ks`: as `Lexes`, and no step is a triple-quoted literal -/
+inductive LexesNT : List Char → List Char → List TokenKind → Prop
+  | done (Y : List Char) : LexesNT [] Y []
+  | step (c : Char) (s Y : List Char) (ks : List TokenKind)
+      (hnt : startsTriple (c :: s ++ Y) = false)
+      (hlen : stepLen (c :: s ++ Y) ≤ (c :: s).length)
+      (h : LexesNT ((c :: s).drop (stepLen (c :: s ++ Y))) Y ks) :
+      LexesNT (c :: s) Y ((match (lexOne (c :: s ++ Y)).tok with | some k => [k] | none => []) ++ ks)
+
+theorem LexesNT.toLexes {s Y : List Char} {ks : List TokenKind} (h : LexesNT s Y ks) : Lexes s Y ks := by
+  induction h with
+  | done Y => exact .done Y
+  | step c s Y ks _ hlen _ ih => exact .step c s Y ks hlen ih
+
+theorem startsTriple_three (c a b : Char) (X : List Char) :
+    startsTriple (c :: a :: b :: X) = (decide (c = '"') && decide (a = '"') && decide (b = '"')) := by
+  unfold startsTriple
+  split
+  · rename_i heq
+    simp only [List.cons.injEq] at heq
+    obtain ⟨rfl, rfl, rfl, _⟩ := heq
+    rfl
+  · rename_i hne
+    by_cases h1 : c = '"'
+    · by_cases h2 : a = '"'
+      · by_cases h3 : b = '"'
+        · subst h1 h2 h3; exact absurd rfl (hne X)
+        · simp [h3]
+      · simp [h2]
+    · simp [h1]
+
+theorem startsTriple_space (c : Char) (s W W' : List Char) :
+    startsTriple (c :: (s ++ ' ' :: W)) = startsTriple (c :: (s ++ ' ' :: W')) := by
+  cases s with
+  | nil => simp [startsTriple]
+  | cons a s' =>
+    cases s' with
+    | nil => simp [startsTriple]
+    | cons b s'' => simp only [List.cons_append, startsTriple_three]
+
+/-- the steps inside the prefix do not depend on what follows the space behind it -/
+theorem LexesNT.transfer {s : List Char} {ks : List TokenKind} (Z Z' : List Char) :
+    LexesNT s (' ' :: Z) ks → LexesNT s (' ' :: Z') ks := by
+  intro h
+  generalize hY : (' ' :: Z) = Y at h
+  induction h with
+  | done Y => exact .done _
+  | step c s Y ks hnt hlen _ ih =>
+    subst hY
+    have hnt' : startsTriple (c :: (s ++ ' ' :: Z')) = false := by
+      rw [← startsTriple_space c s Z Z']; simpa using hnt
+    have hlen' : (lexOne (c :: ((s ++ [' ']) ++ Z))).len ≤ (s ++ [' ']).length := by
+      have : stepLen (c :: (s ++ ' ' :: Z)) ≤ (c :: s).length := by simpa using hlen
+      simp only [stepLen, List.length_cons] at this
+      simp only [List.append_assoc, List.cons_append, List.nil_append, List.length_append, List.length_cons, List.length_nil]
+      omega
+    have hloc := lexOne_local c (s ++ [' ']) Z Z' (by simpa using hnt) (by simpa using hnt') hlen'
+    simp only [List.append_assoc, List.cons_append, List.nil_append] at hloc
+    have hstep : stepLen (c :: s ++ ' ' :: Z') = stepLen (c :: s ++ ' ' :: Z) := by
+      simp only [stepLen, List.cons_append, hloc]
+    have := LexesNT.step c s (' ' :: Z') ks (by simpa using hnt') (by rw [hstep]; exact hlen)
+      (by rw [hstep]; exact ih rfl)
+    simp only [List.cons_append] at this ⊢
+    rw [hloc] at this
+    exact this
+
+/-- **Block comment at a token boundary.** Take any file `s₁ ++ " " ++ s₂` that the lexer splits
+    after `s₁` (every token, comment and blank beginning in `s₁` ends in `s₁`; none of them is a
+    triple-quoted literal).  Writing a block comment — any text without `*/` — behind that space
+    changes no token kind of the file. -/
+theorem C29_block_comment_insertion (s₁ s₂ c : List Char) (ks : List TokenKind) (h : noClose c = true)
+    (hsplit : LexesNT s₁ (' ' :: s₂) ks) :
+    kindsFrom (s₁ ++ ' ' :: '/' :: '*' :: (c ++ '*' :: '/' :: s₂)) = kindsFrom (s₁ ++ ' ' :: s₂) := by
+  have h1 := (hsplit.transfer s₂ ('/' :: '*' :: (c ++ '*' :: '/' :: s₂))).toLexes
+  rw [kindsFrom_of_Lexes h1, kindsFrom_of_Lexes hsplit.toLexes, (C29_blank_skipped _).1,
+    (C29_blank_skipped _).1, C29_block_comment_skipped c s₂ h]
+
+/-- **Line comment at a token boundary.** The same for a `//` comment (text without newline) written
+    behind the space when the rest of the file begins with a line break or is empty. -/
+theorem C29_line_comment_insertion (s₁ s₂ c : List Char) (ks : List TokenKind) (hc : ∀ x ∈ c, x ≠ '\n')
+    (hs₂ : s₂ = [] ∨ ∃ r, s₂ = '\n' :: r) (hsplit : LexesNT s₁ (' ' :: s₂) ks) :
+    kindsFrom (s₁ ++ ' ' :: '/' :: '/' :: (c ++ s₂)) = kindsFrom (s₁ ++ ' ' :: s₂) := by
+  have h1 := (hsplit.transfer s₂ ('/' :: '/' :: (c ++ s₂))).toLexes
+  rw [kindsFrom_of_Lexes h1, kindsFrom_of_Lexes hsplit.toLexes, (C29_blank_skipped _).1,
+    (C29_blank_skipped _).1, C29_line_comment_skipped c s₂ hc hs₂]
+
 -- non-vacuity
+example : LexesNT "x +".toList (' ' :: "y".toList) [.ident ['x'], .plus] := by
+  refine .step 'x' _ _ _ (by decide +kernel) (by decide +kernel) (.step ' ' _ _ _ (by decide +kernel) (by decide +kernel)
+    (.step '+' _ _ _ (by decide +kernel) (by decide +kernel) (.done _)))
 example : noClose "a * b / c \" ' é \n **".toList = true := by decide +kernel
 example : Lexes "x +".toList " y".toList [.ident ['x'], .plus] := by
   refine .step 'x' _ _ _ (by decide +kernel) (.step ' ' _ _ _ (by decide +kernel) (.step '+' _ _ _ (by decide +kernel) (.done _)))
